@@ -322,12 +322,6 @@ def _check_meta(case, dg, whole, lazy, chunked):
     require(lazy.odc.geobox == whole.odc.geobox, "geobox of lazy result differs from whole-array result")
     require(chunked.dims == whole.dims, "dims differ: chunked %r whole %r", chunked.dims, whole.dims)
     require(_attrs_equal(dict(chunked.attrs), dict(whole.attrs)), "attrs differ: chunked %r whole %r", dict(chunked.attrs), dict(whole.attrs))
-    fill = _fill_value(case)
-    nd = whole.attrs.get("nodata", None)
-    if case["nodata"]["dst"] is None and case["nodata"]["src"] is None:
-        require(nd is None, "no nodata given but result carries nodata=%r", nd)
-    else:
-        require(nd is not None and (nd == fill or (math.isnan(fill) and math.isnan(nd))), "result nodata attr %r, expected %r", nd, fill)
     require(set(chunked.coords) == set(whole.coords), "coords differ: %r vs %r", sorted(map(str, chunked.coords)), sorted(map(str, whole.coords)))
     for k in whole.coords:
         a, b = whole.coords[k], chunked.coords[k]
@@ -487,7 +481,8 @@ def o_cross_crs(case, T, nt_rule="partial"):
         judged = deep & ok_w
         nbad_w = int((deep & ~ok_w).sum())
         if nbad_w:
-            T.exclude("backend_disagrees_with_pyproj_pixels", nbad_w)
+            # seen in practice: GDAL nudges a valid source value that equals dst_nodata by one (0 -> -1), in both paths
+            T.exclude("whole_array_value_not_a_nearby_source_value_pixels", nbad_w)
         T.cls("compared_pixels", int(judged.sum()))
         bad = judged & ~ok_c
         if bad.any():
@@ -956,6 +951,50 @@ def o_fill_other(case, T):
         o_same_crs(case, T)
 
 
+def _multi_chunks(case):
+    """Schedule sub-check: replace a single destination chunk by a 2..3 x 2..3 grid where the shape allows."""
+    shape = case["xdst"]["shape"] if "xsrc" in case else case["dst"]["shape"]
+    dc = case["dst_chunks"]
+    if dc is None or (dc[0] >= shape[0] and dc[1] >= shape[1]):
+        case = dict(case)
+        case["dst_chunks"] = [max(1, -(-shape[0] // 2)), max(1, -(-shape[1] // 3))]
+    return case
+
+
+def o_schedules(case, T):
+    """Every execution order gives the same chunked result - bit for bit, ambiguous pixels included - and that
+    result passes the comparison with the whole-array result."""
+    if "xsrc" in case:
+        case = _cross_grids(dict(case))
+    if _backend_identity(case["src"]) or _backend_identity(case["dst"]):
+        T.exclude("backend_identity_transform")
+        return
+    data, sg, dg, whole, lazy, first = _run_both(case)
+    ref = first.values
+    seed = int(case["sched"][1])
+    others = [["random", seed + 1], ["random", seed + 2], ["threads", 4], ["threads", 2], ["random", seed]]
+    for sched in others:
+        got = _compute(lazy, sched).values
+        same = _same(ref, got)
+        if not same.all():
+            idx = _where(~same, 1)[0]
+            raise Violation(
+                "chunked result depends on the execution order: %d pixel(s) differ between schedule %r and %r, e.g. %r: %r vs %r "
+                "(dtype %s, src chunks %r, dst chunks %r)"
+                % (int((~same).sum()), case["sched"], sched, idx, ref[idx].item(), got[idx].item(), case["dtype"], case["src_chunks"], case["dst_chunks"])
+            )
+    # a second, independently built graph (new task names) must agree as well
+    _, _, _, _, _, again = _run_both(case)
+    require(bool(_same(ref, again.values).all()), "two identical chunked reprojection calls gave different results (schedule %r)", case["sched"])
+    rows, cols = _dst_chunk_grid(case)
+    n_chunks = len(rows) * len(cols)
+    T.cls("dst_chunks_%s" % ("1" if n_chunks == 1 else "2-9" if n_chunks < 10 else "10+"))
+    T.cls("klass:" + case["klass"])
+    T.cls("first_sched:" + case["sched"][0])
+    if n_chunks >= 2:
+        T.nontrivial()
+
+
 def _is_d20(sub, case, msg):
     """D20: float data, no nodata anywhere, chunked result holds 0 instead of NaN where nothing reaches."""
     nd = case.get("nodata", {})
@@ -967,17 +1006,22 @@ def _is_d20(sub, case, msg):
 
 
 def build(chk: Check) -> None:
-    chk.sub("same_crs_nearest", o_same_crs, strategy=s_same_linear(), n={"quick": 700, "thorough": 24000},
-            budget_s={"quick": 60, "thorough": 800}, shrink=False)
-    chk.sub("same_crs_rotated", o_same_crs, strategy=s_same_rotated(), n={"quick": 200, "thorough": 8000},
-            budget_s={"quick": 40, "thorough": 600}, shrink=False)
-    chk.sub("cross_crs_nearest", o_cross, strategy=s_cross(), n={"quick": 300, "thorough": 10000},
-            budget_s={"quick": 50, "thorough": 800}, shrink=False)
+    # ~25-40 ms per case on an idle core; budgets are generous caps for a loaded machine
+    chk.sub("same_crs_nearest", o_same_crs, strategy=s_same_linear(), n={"quick": 600, "thorough": 16000},
+            budget_s={"quick": 60, "thorough": 330}, shrink=False)
+    chk.sub("same_crs_rotated", o_same_crs, strategy=s_same_rotated(), n={"quick": 160, "thorough": 5000},
+            budget_s={"quick": 40, "thorough": 150}, shrink=False)
+    chk.sub("cross_crs_nearest", o_cross, strategy=s_cross(), n={"quick": 260, "thorough": 7000},
+            budget_s={"quick": 50, "thorough": 200}, shrink=False)
     chk.sub("fill_bilinear", o_fill_other,
             strategy=st.one_of(s_same_linear(resampling="bilinear"), s_same_linear(resampling="bilinear"), s_cross(resampling="bilinear")),
-            n={"quick": 200, "thorough": 6000}, budget_s={"quick": 40, "thorough": 600}, shrink=False)
+            n={"quick": 160, "thorough": 4000}, budget_s={"quick": 40, "thorough": 120}, shrink=False)
     chk.sub("disjoint_all_fill", o_disjoint,
-            strategy=st.one_of(s_same_linear(places=["disjoint"]), s_same_linear(places=["disjoint", "touching"], klasses=["scale_k", "mirror_xy", "shift_int"]),
+            strategy=st.one_of(s_same_linear(places=["disjoint"]),
+                               s_same_linear(places=["disjoint", "touching"], klasses=["scale_k", "mirror_xy", "shift_int"]),
                                s_cross(far_apart=True)),
-            n={"quick": 150, "thorough": 5000}, budget_s={"quick": 40, "thorough": 600}, shrink=False)
+            n={"quick": 120, "thorough": 3000}, budget_s={"quick": 40, "thorough": 100}, shrink=False)
+    chk.sub("schedules", o_schedules,
+            strategy=st.one_of(s_same_linear(places=["partial", "covers", "contained"]), s_same_rotated(), s_cross()).map(_multi_chunks),
+            n={"quick": 60, "thorough": 2000}, budget_s={"quick": 30, "thorough": 120}, shrink=False)
     chk.known("D20", _is_d20)
